@@ -1,9 +1,11 @@
 CFG = dict(
+    translate=['consts'],
+    gen_lemmas=['proofs/ConstsTieC08.v: KWP size limits regenerated from the Go source (gen/RepoConsts.v) equal the constants of the model'],
     n={'quick': 150, 'thorough': 3000},
     oracle=True,
     reference=True,
     corr='Siv.daead_encrypt/daead_decrypt (model/Siv.v over Cmac.v) vs daead.New / aessiv / daead/subtle.NewAESSIV, and Kwp.kwp_wrap/kwp_unwrap (model/Kwp.v) vs kwp/subtle, byte-equal outputs and exact accept/reject on mutated inputs; AES block operations from the stdlib oracle',
-    coq_targets=['props/C08.vo'],
+    coq_targets=['proofs/ConstsTieC08.vo', 'props/C08.vo'],
     assumptions=['AES block encryption returns 16 bytes below 256 on 16-byte inputs (hypothesis of the SIV theorems)',
                  'AES block decryption and encryption under one key are mutually inverse on 16-byte blocks and return 16 bytes (hypotheses of the KWP theorems)'],
 )
